@@ -4,6 +4,7 @@ from vlib import run_pair
 PID = "C03"
 MODEL_VOS = ["model/CloseProto.vo"]
 ASSUMPTIONS = [
+    "send-queue reservation: q_step/q_run model only the NUMBER of queued segments (capacity segmentTreeCapacity from Consts.v; a Write of n fragments is admitted iff Remaining() > n, otherwise it waits; drains are arbitrary); C03_close_request_always_queued says the close request of a graceful Close can always be inserted. The admission comparison itself is not translated from the source (it reads sendQueue.Remaining(), a method of another object): it is tied by the driver's sender-backlog scenarios (32 KiB writes over a bandwidth-limited UDP path, hook VerifC03SendQueueRemaining: a successful Write must never leave Remaining() = 0; if it does the closer closes at that instant and the outcome is judged)",
     "one direction of one session is modelled; a sequenced segment is its sequence number (payload bytes are C01/C02's matter); 'read all of w' = read segments 0..n-1 in order",
     "which Go statements form one step is a modelling decision (Read = test, then select; a TCP drain holds oLock from start to end; inputClose up to close(closedChan) is one step because the input loop is inside it)",
     "the UDP receive window (4096 segments) and the retransmission timers/limits are not modelled: retransmission is a nondeterministic step, so every timing is covered, but 'too many retransmissions' is not",
